@@ -161,8 +161,9 @@ def parseFacts (j : Json) : Except String Facts := do
 
 def strArr (l : List String) : Json := Json.arr (l.map Json.str).toArray
 
-def frontToJson (r : FrontResult) : Json :=
+def frontToJson (f : Facts) (r : FrontResult) : Json :=
   Json.mkObj [
+    ("distinctFields", Json.bool f.env.distinctFieldsCheck),
     ("status", r.status), ("panicSite", r.panicSite),
     ("stderr", strArr r.stderr), ("stdout", strArr r.stdout),
     ("blocks", Json.arr (r.blocks.map fun (n, fs) =>
@@ -254,7 +255,7 @@ def handle (line : String) : String :=
     match j.getObjVal? "op" with
     | .ok (.str "front") =>
       match j.getObjVal? "facts" >>= parseFacts with
-      | .ok f => (frontToJson (front f)).compress
+      | .ok f => (frontToJson f (front f)).compress
       | .error e => (Json.mkObj [("error", s!"facts: {e}")]).compress
     | .ok (.str "run") =>
       match handleRun j with
